@@ -143,7 +143,7 @@ type freshInfo struct {
 // `at` has yet made reachable to other goroutines. Parameters are resolved through all call
 // sites (depth-bounded).
 func unpublishedAt(r *Run, f *ssa.Function, v ssa.Value, at ssa.Instruction, depth int) freshInfo {
-	if depth > 4 {
+	if depth > 7 {
 		return freshInfo{false, "call depth bound exceeded"}
 	}
 	seen := map[ssa.Value]bool{}
